@@ -50,6 +50,8 @@ func main() {
 		os.Exit(cmdCheck(os.Args[2:]))
 	case "replay":
 		os.Exit(cmdReplay(os.Args[2:]))
+	case "sweep":
+		os.Exit(cmdSweep(os.Args[2:]))
 	case "writers":
 		os.Exit(cmdWriters(os.Args[2:]))
 	case "heavy":
